@@ -85,13 +85,13 @@ theorem scan_spec_unique {l l' : Raw} {P : Bytes → Bytes → Prop}
 theorem merged_get_scan_agree {a b : Raw} (ha : Sorted a) (hb : Sorted b) (k : Bytes) :
     rget (merge2 a b) k = mget2 a b k := rget_merge2 ha hb k
 
-/-- scan through a historical root (rollback overlay over the frontier snapshot, skipDeleted, enableDelete):
-    the key-ordered list of exactly the entries of the viewed version under the prefix — EXCEPT those holding
-    the empty value (known finding F3b: `skipDeletedIterator` drops raw values of length ≤ 1, i.e. tombstones
-    and present-but-empty values alike). -/
-theorem hist_scan_spec_partial {rb base : Raw} (hrb : Sorted rb) (hbase : Sorted base) (p : Bytes) :
+/-- scan through a historical root (rollback overlay over the frontier snapshot, seen through the delete-enabled
+    iterator, which skips the deleted entries and nothing else): the key-ordered list of exactly the entries of the
+    viewed version under the prefix — keys holding the empty value included. (Before 734ff49 the overlay and the
+    snapshot were additionally wrapped in `skipDeletedIterator`, which dropped those keys: former finding F3b.) -/
+theorem hist_scan_spec {rb base : Raw} (hrb : Sorted rb) (hbase : Sorted base) (p : Bytes) :
     OrderedEntries (edEntries ((Root.hist rb base).rawScan p))
-      (fun k v => isPrefix p k = true ∧ viewOf (oabs rb) (abs base) k = some v ∧ v ≠ []) :=
+      (fun k v => isPrefix p k = true ∧ viewOf (oabs rb) (abs base) k = some v) :=
   hist_scan_entries hrb hbase p
 
 /-- scan through the frontier root: the key-ordered list of exactly the entries under the prefix -/
@@ -100,28 +100,49 @@ theorem front_scan_spec {base : Raw} (hbase : Sorted base) (p : Bytes) :
       (fun k v => isPrefix p k = true ∧ abs base k = some v) :=
   front_scan_entries hbase p
 
-/-- N2 (F3b, general form): a key that holds the empty value in the viewed version is found by `Get`/`Has`
-    but is missing from every scan of the historical view. -/
-theorem hist_scan_drops_empty_value {rb base : Raw} (hrb : Sorted rb) (hbase : Sorted base) (p k : Bytes)
-    (hk : (Root.hist rb base).get k = some []) :
-    ∀ v, (k, v) ∉ edEntries ((Root.hist rb base).rawScan p) := by
-  intro v hv
-  have h := ((hist_scan_spec_partial hrb hbase p).2 k v).1 hv
-  rw [hist_get_refines] at hk
-  rw [hk] at h
-  exact h.2.2 (Option.some.inj h.2.1).symm
+/-- scan and lookup of a historical root agree: the scan under prefix `p` lists `(k, v)` exactly when `k` is under
+    `p` and `Get k` answers `v` (so: no key that `Get`/`Has` report present is missing, no key they report absent
+    is listed). This is the sentence the model-free scan monitor of the `vdb` stream tests on the real store. -/
+theorem hist_scan_agrees_get {rb base : Raw} (hrb : Sorted rb) (hbase : Sorted base) (p k v : Bytes) :
+    (k, v) ∈ edEntries ((Root.hist rb base).rawScan p) ↔ isPrefix p k = true ∧ (Root.hist rb base).get k = some v := by
+  rw [hist_get_refines]
+  exact (hist_scan_spec hrb hbase p).2 k v
 
-/-- N2 (F3b, concrete witness): key `[9]` holds the empty value at X; a later commit created key `[11]`.
-    The view at X answers `Get [9] = ""` but its scan is empty, whereas the same content scanned at the frontier
-    root lists the key. -/
-theorem hist_scan_drops_empty_value_witness :
+/-- in particular (the former F3b case): a key that holds the empty value in the viewed version is listed, with
+    the empty value, by every scan of the historical view whose prefix covers it -/
+theorem hist_scan_lists_empty_value {rb base : Raw} (hrb : Sorted rb) (hbase : Sorted base) (p k : Bytes)
+    (hp : isPrefix p k = true) (hk : (Root.hist rb base).get k = some []) :
+    (k, []) ∈ edEntries ((Root.hist rb base).rawScan p) :=
+  (hist_scan_agrees_get hrb hbase p k []).2 ⟨hp, hk⟩
+
+/-- … and a key deleted in the overlay (created after X) or deleted in the snapshot is never listed -/
+theorem hist_scan_hides_deleted {rb base : Raw} (hrb : Sorted rb) (hbase : Sorted base) (p k : Bytes)
+    (hk : (Root.hist rb base).get k = none) :
+    ∀ v, (k, v) ∉ edEntries ((Root.hist rb base).rawScan p) := by
+  intro v hm
+  have := ((hist_scan_agrees_get hrb hbase p k v).1 hm).2
+  rw [hk] at this
+  cases this
+
+/-- the concrete witness of the former finding F3b, now positive: key `[9]` holds the empty value at X; a later
+    commit created key `[11]` (the overlay holds its tombstone). The view at X answers `Get [9] = ""`, `Get [11]` =
+    not found, and its scan is exactly `[9] ↦ ""` — the same list as a scan of the frontier root with that content. -/
+example :
     let rb : Raw := [([11], [])]
     let base : Raw := [([9], [0]), ([11], [0, 1])]
     (Root.hist rb base).get [9] = some [] ∧
-    edEntries ((Root.hist rb base).rawScan []) = [] ∧
+    (Root.hist rb base).get [11] = none ∧
+    edEntries ((Root.hist rb base).rawScan []) = [([9], [])] ∧
     edEntries ((Root.front [([9], [0])]).rawScan []) = [([9], [])] := by
-  refine ⟨by decide, ?_, by decide⟩
-  simp [Root.rawScan, rscan, isPrefix, merge2, bytesLt, skipDel, edEntries]
+  refine ⟨by decide, by decide, ?_, by decide⟩
+  simp [Root.rawScan, rscan, isPrefix, merge2, bytesLt, edEntries]
+
+/-- the same witness with a one-byte value next to it and a key deleted since X that the overlay restores -/
+example :
+    let rb : Raw := [([10], [0]), ([11], [])]
+    let base : Raw := [([9], [0]), ([10], []), ([11], [0, 1]), ([12], [0, 7])]
+    edEntries ((Root.hist rb base).rawScan []) = [([9], []), ([10], []), ([12], [7])] := by
+  simp [Root.rawScan, rscan, isPrefix, merge2, bytesLt, edEntries]
 
 
 /-! ### the executable manager (`Ldb` = ldbManager without caches) over arbitrary operation sequences
@@ -151,13 +172,12 @@ theorem view_refines_has {s : Ldb} {h : List Ver} (hr : Reach s h) {v : Ver} (hv
   obtain ⟨r, hg, hget⟩ := view_refines hr hv
   exact ⟨r, hg, fun k => by rw [hget k]⟩
 
-/-- T1, ordered scan: the scan of the view at `v` under prefix `p` is the key-ordered list of exactly the entries
-    of `v`'s content under `p` — except that for a version below the frontier the keys holding the empty value
-    are missing (known finding F3b; `scanSpec` spells the exception out: `v.id = topId h ∨ val ≠ []`). -/
-theorem view_refines_scan_partial {s : Ldb} {h : List Ver} (hr : Reach s h) {v : Ver} (hv : v ∈ h) (p : Bytes) :
+/-- T1, ordered scan: in every reachable state, the scan of the view at ANY version `v` on the chain (frontier or
+    below) under prefix `p` is the key-ordered list of exactly the entries of `v`'s content under `p` — empty values
+    included, whatever was committed, refused or popped afterwards. -/
+theorem view_refines_scan {s : Ldb} {h : List Ver} (hr : Reach s h) {v : Ver} (hv : v ∈ h) (p : Bytes) :
     ∃ r, s.get v.id = some r ∧
-      OrderedEntries (edEntries (r.rawScan p))
-        (fun k val => isPrefix p k = true ∧ v.store k = some val ∧ (v.id = topId h ∨ val ≠ [])) := by
+      OrderedEntries (edEntries (r.rawScan p)) (fun k val => isPrefix p k = true ∧ v.store k = some val) := by
   obtain ⟨r, hg, _, hscan⟩ := hr.inv.view_scan hv
   exact ⟨r, hg, hscan p⟩
 
@@ -178,20 +198,16 @@ theorem unknown_parent_refused {s : Ldb} {h : List Ver} (hr : Reach s h) {prev :
 
 /-- T2 `view_immutable` (value level): the views handed out for the same version in two different reachable
     states — e.g. before and after any number of later commits, refused commits and pops that keep the version on
-    the chain — agree on every lookup and every ordered scan below the frontier. (A view is a value here: it owns
-    its snapshot; aliasing of the cached overlay object is outside this model and covered by the `vdb` stream.) -/
+    the chain, also when the version was the frontier in one state and lies below it in the other — agree on every
+    lookup and every ordered scan. (A view is a value here: it owns its snapshot; aliasing of the cached overlay
+    object is outside this model and covered by the `vdb` stream.) -/
 theorem view_immutable {s s' : Ldb} {h h' : List Ver} (hr : Reach s h) (hr' : Reach s' h') {v : Ver}
     (hv : v ∈ h) (hv' : v ∈ h') :
     ∃ r r', s.get v.id = some r ∧ s'.get v.id = some r' ∧ (∀ k, r.get k = r'.get k) ∧
-      (v.id ≠ topId h → v.id ≠ topId h' → ∀ p, edEntries (r.rawScan p) = edEntries (r'.rawScan p)) := by
+      (∀ p, edEntries (r.rawScan p) = edEntries (r'.rawScan p)) := by
   obtain ⟨r, hg, hget, hscan⟩ := hr.inv.view_scan hv
   obtain ⟨r', hg', hget', hscan'⟩ := hr'.inv.view_scan hv'
-  refine ⟨r, r', hg, hg', fun k => by rw [hget, hget'], ?_⟩
-  intro h1 h2 p
-  refine (hscan p).unique ⟨(hscan' p).1, ?_⟩
-  intro k val
-  rw [(hscan' p).2]
-  simp only [scanSpec, h1, h2]
+  exact ⟨r, r', hg, hg', fun k => by rw [hget, hget'], fun p => (hscan p).unique (hscan' p)⟩
 
 /-- the model totalises two places where the Go code dereferences a missing undo patch (the `none` branch of
     `buildOverlay` in `Get`, and `Pop`): in every reachable state the undo patch of every height 1 … frontier height
@@ -217,24 +233,32 @@ theorem cached_overlay_sound {s s' : Ldb} {h newer : List Ver} (hr : Reach s h) 
       buildOverlay s'.rollbacks v.id.height (s'.frontierId.height - v.id.height) [] :=
   hr.inv.inv0.cached_overlay hr'.inv.inv0 hv
 
-/-- N2 (F3b) on the manager: a key holding the empty value in a version below the frontier is answered by
-    `Get`/`Has` of the view but missing from its scans -/
-theorem view_scan_drops_empty_value {s : Ldb} {h : List Ver} (hr : Reach s h) {v : Ver} (hv : v ∈ h)
-    (hnf : v.id ≠ topId h) {k : Bytes} (hk : v.store k = some []) :
-    ∃ r, s.get v.id = some r ∧ r.get k = some [] ∧ ∀ p val, (k, val) ∉ edEntries (r.rawScan p) := by
+/-- the former F3b case on the manager: a key holding the empty value in a version on the chain (below the
+    frontier or not) is answered by `Get`/`Has` of the view AND listed, with the empty value, by every scan of the
+    view whose prefix covers it -/
+theorem view_scan_lists_empty_value {s : Ldb} {h : List Ver} (hr : Reach s h) {v : Ver} (hv : v ∈ h)
+    {k : Bytes} (hk : v.store k = some []) :
+    ∃ r, s.get v.id = some r ∧ r.get k = some [] ∧
+      ∀ p, isPrefix p k = true → (k, []) ∈ edEntries (r.rawScan p) := by
   obtain ⟨r, hg, hget, hscan⟩ := hr.inv.view_scan hv
-  refine ⟨r, hg, by rw [hget, hk], ?_⟩
-  intro p val hm
-  have := ((hscan p).2 k val).1 hm
-  simp only [scanSpec, hnf, false_or] at this
-  rw [hk] at this
-  exact this.2.2 (Option.some.inj this.2.1).symm
+  exact ⟨r, hg, by rw [hget, hk], fun p hp => ((hscan p).2 k []).2 ⟨hp, hk⟩⟩
+
+/-- scan and lookup of the view at a version on the chain agree, key by key -/
+theorem view_scan_agrees_get {s : Ldb} {h : List Ver} (hr : Reach s h) {v : Ver} (hv : v ∈ h) :
+    ∃ r, s.get v.id = some r ∧
+      ∀ p k val, (k, val) ∈ edEntries (r.rawScan p) ↔ isPrefix p k = true ∧ r.get k = some val := by
+  obtain ⟨r, hg, hget, hscan⟩ := hr.inv.view_scan hv
+  exact ⟨r, hg, fun p k val => by rw [hget]; exact (hscan p).2 k val⟩
 
 /-- non-vacuity of `Reach`: two commits, a refused commit on the stale first version, a third commit and a pop;
-    the final state is reachable with a history of two versions, and the view at the first version still hides
-    what the second wrote -/
-example : ∃ s h v1, Reach s h ∧ h.length = 2 ∧ v1 ∈ h ∧ v1.id = ⟨1, [7]⟩ ∧
-    v1.store [9] = some [] ∧ v1.store [10] = none ∧ topStore h [10] = some [5] := by
+    the final state is reachable with a history of two versions, and the view at the first version (below the
+    frontier) still hides what the second wrote; key `[9]`, which holds the empty value at the first version and
+    was deleted by the second, is answered by `Get` and listed by the scan of that view (the former F3b witness,
+    now positive), and key `[10]`, created by the second version, is not listed -/
+example : ∃ s h v1, Reach s h ∧ h.length = 2 ∧ v1 ∈ h ∧ v1.id = ⟨1, [7]⟩ ∧ v1.id ≠ topId h ∧
+    v1.store [9] = some [] ∧ v1.store [10] = none ∧ topStore h [10] = some [5] ∧
+    (∃ r, s.get v1.id = some r ∧ r.get [9] = some [] ∧ ([9], []) ∈ edEntries (r.rawScan []) ∧
+      ∀ val, ([10], val) ∉ edEntries (r.rawScan [])) := by
   let id1 : Id := ⟨1, [7]⟩
   let id2 : Id := ⟨2, [8]⟩
   let id3 : Id := ⟨3, [9]⟩
@@ -260,7 +284,19 @@ example : ∃ s h v1, Reach s h ∧ h.length = 2 ∧ v1 ∈ h ∧ v1.id = ⟨1, 
     ⟨⟨by rw [f2], by decide⟩, by simp [commitVer, id1, id2, id3], by simp⟩ a4
   obtain ⟨s5, p5⟩ := r4.inv.inv0.pop_succeeds
   have r5 := Reach.pop r4 p5
-  exact ⟨s5, _, commitVer [] id1 ops1, r5, rfl, by simp, rfl, by decide, by decide, by decide⟩
+  have hv1 : commitVer [] id1 ops1 ∈ [commitVer [commitVer [] id1 ops1] id2 ops2, commitVer [] id1 ops1] := by simp
+  obtain ⟨r, hg, hag⟩ := view_scan_agrees_get r5 hv1
+  obtain ⟨r', hg', hget'⟩ := view_refines r5 hv1
+  have hrr : r' = r := Option.some.inj (hg'.symm.trans hg)
+  subst hrr
+  have h9 : r'.get [9] = some [] := by rw [hget']; decide
+  have h10 : r'.get [10] = none := by rw [hget']; decide
+  refine ⟨s5, _, commitVer [] id1 ops1, r5, rfl, hv1, rfl, by decide, by decide, by decide, by decide,
+    r', hg, h9, (hag [] [9] []).2 ⟨by decide, h9⟩, ?_⟩
+  intro val hm
+  have := ((hag [] [10] val).1 hm).2
+  rw [h10] at this
+  cases this
 
 
 /-! ### T3 — write isolation and change sets -/
@@ -355,26 +391,55 @@ theorem view_tree_layer (vs : Views) (n : String) (top : Raw) (root : Root)
   · intro k; simp only [getV, rawGetV, hn, layerGet, layerRawGet]; cases rget top k <;> rfl
   · intro p; simp only [scanV, rawScanV, hn, layerRawScan]
 
-/-- ordered scan through a view with private writes over any root: the key-ordered list of exactly the entries the
-    view reads under the prefix — over a historical root, minus the keys not written by the view itself that
-    hold the empty value (F3b). -/
-theorem layer_scan_spec_partial {top : Raw} (hs : Sorted top) {root : Root} (hw : root.WF) (p : Bytes) :
+/-- ordered scan through a view with private writes over ANY root (memdb, frontier snapshot, historical overlay):
+    the key-ordered list of exactly the entries the view reads under the prefix -/
+theorem layer_scan_spec {top : Raw} (hs : Sorted top) {root : Root} (hw : root.WF) (p : Bytes) :
     OrderedEntries (edEntries (layerRawScan top root p))
-      (fun k v => isPrefix p k = true ∧ layerGet top root k = some v ∧
-        ((rget top k).isSome = true ∨ root.isHist = false ∨ v ≠ [])) :=
+      (fun k v => isPrefix p k = true ∧ layerGet top root k = some v) :=
   layer_scan_entries hs hw p
 
-/-- full strength over the frontier snapshot: scan = key-ordered entries of the view's reads -/
+/-- instance: over the frontier snapshot -/
 theorem frontier_layer_scan_spec {top base : Raw} (hs : Sorted top) (hb : Sorted base) (p : Bytes) :
     OrderedEntries (edEntries (layerRawScan top (Root.front base) p))
-      (fun k v => isPrefix p k = true ∧ layerGet top (Root.front base) k = some v) := by
-  have h := layer_scan_entries hs (root := Root.front base) hb p
-  refine ⟨h.1, fun k v => (h.2 k v).trans ?_⟩
-  simp [Root.isHist]
+      (fun k v => isPrefix p k = true ∧ layerGet top (Root.front base) k = some v) :=
+  layer_scan_entries hs (root := Root.front base) hb p
+
+/-- instance: over a historical root (what a block re-processed on a version below the frontier scans) -/
+theorem hist_layer_scan_spec {top rb base : Raw} (hs : Sorted top) (hrb : Sorted rb) (hb : Sorted base) (p : Bytes) :
+    OrderedEntries (edEntries (layerRawScan top (Root.hist rb base) p))
+      (fun k v => isPrefix p k = true ∧ layerGet top (Root.hist rb base) k = some v) :=
+  layer_scan_entries hs (root := Root.hist rb base) ⟨hrb, hb⟩ p
+
+/-- manager level, any version: a view opened at a version `v` on the chain of a reachable state that then
+    received the writes `ops` reads `applyP (content of v) ops` on every key, and every ordered prefix scan of it is
+    the key-ordered list of exactly those entries. -/
+theorem version_view_refines {s : Ldb} {h : List Ver} (hr : Reach s h) {v : Ver} (hv : v ∈ h) (ops : Patch) :
+    ∃ r, s.get v.id = some r ∧
+      (∀ k, layerGet (edApply [] ops) r k = applyP v.store ops k) ∧
+      (∀ p, OrderedEntries (edEntries (layerRawScan (edApply [] ops) r p))
+        (fun k val => isPrefix p k = true ∧ applyP v.store ops k = some val)) := by
+  obtain ⟨r, hg, hget, hshape⟩ := hr.inv.view hv
+  have hreads : ∀ k, layerGet (edApply [] ops) r k = applyP v.store ops k := by
+    intro k
+    have := changes_replay_layer (top_layer_sorted ops) r k
+    rw [hget] at this
+    rw [changes_of_writes] at this
+    rw [this]
+    simp only [layerGet, layerRawGet]
+    cases rget (edApply [] ops) k <;> rfl
+  have hw : r.WF := by
+    rcases hshape with ⟨rfl, _⟩ | ⟨_, rb, rfl, hrb⟩
+    · exact hr.inv.inv0.sorted
+    · exact ⟨hrb, hr.inv.inv0.sorted⟩
+  refine ⟨r, hg, hreads, ?_⟩
+  intro p
+  have hsc := layer_scan_entries (top_layer_sorted ops) hw p
+  refine ⟨hsc.1, fun k val => (hsc.2 k val).trans ?_⟩
+  simp only [hreads]
 
 /-- manager level: a view opened on the frontier of a reachable state that then received the writes `ops` reads
     `applyP (frontier content) ops` on every key, and every ordered prefix scan of it is the key-ordered list of
-    exactly those entries (no exception at the frontier). -/
+    exactly those entries. -/
 theorem frontier_view_refines {s : Ldb} {h : List Ver} (hr : Reach s h) (ops : Patch) :
     ∃ r, s.get s.frontierId = some r ∧
       (∀ k, layerGet (edApply [] ops) r k = applyP (topStore h) ops k) ∧
@@ -389,15 +454,15 @@ theorem frontier_view_refines {s : Ldb} {h : List Ver} (hr : Reach s h) (ops : P
     rw [this]
     simp only [layerGet, layerRawGet]
     cases rget (edApply [] ops) k <;> rfl
-  have hw : r.WF ∧ r.isHist = false := by
+  have hw : r.WF := by
     rcases hshape with ⟨rfl, _⟩ | rfl
-    · exact ⟨trivial, rfl⟩
-    · exact ⟨hr.inv.inv0.sorted, rfl⟩
+    · exact trivial
+    · exact hr.inv.inv0.sorted
   refine ⟨r, hg, hreads, ?_⟩
   intro p
-  have hsc := layer_scan_entries (top_layer_sorted ops) hw.1 p
+  have hsc := layer_scan_entries (top_layer_sorted ops) hw p
   refine ⟨hsc.1, fun k v => (hsc.2 k v).trans ?_⟩
-  simp only [hreads, hw.2, true_or, or_true, and_true]
+  simp only [hreads]
 
 /-- non-vacuity: a concrete two-commit history; the view at the first version hides the later write and deletion -/
 example :
